@@ -152,6 +152,9 @@ func init() {
 					}
 					// queries as transitions: a read between two merges must not freeze anything
 					sp.Ops = append(sp.Ops, skCodec(0, 1, false, false), skCodec(1, 2, false, true), skCodec(2, 0, false, false), skClear(0), skClear(1), skRead(0), skRead(1))
+					// weighted inputs (fractional weights take other paths than unit entries
+					// in a merge: pages against buffer, dense bins against map entries)
+					sp.Ops = append(sp.Ops, skAddW(0, 1, 0.5), skAddW(1, 7.3, 0.25), skAddW(2, -1, 2))
 					// a sketch merged into itself holds its input twice
 					sp.Ops = append(sp.Ops, skMerge(0, 0), skCodec(1, 1, false, false))
 					if mc.MapOrderControlled {
